@@ -922,11 +922,13 @@ var c05Pairs = []c05PairDef{
 	{"MPU,GET", []string{"M", "G"}, []bool{true, false}},
 	{"COPY,GET", []string{"C", "G"}, []bool{true}},
 	{"DELETE,DELETE", []string{"D", "D"}, []bool{true}},
+	{"COPY,DELETE", []string{"C", "D"}, []bool{true}},
 	{"PUT,PUT,GET", []string{"P", "P", "G"}, []bool{true}},
 	{"PUT,DELETE,GET", []string{"P", "D", "G"}, []bool{true}},
 }
 
-// c05Corpus: the minimal witnesses of the known findings (run first; the same schedules as Open/C05.lean).
+// c05Corpus: the witnesses of the FORMER findings (fixed in the repo: 4399f3e, 109ae9c, 4e82e48), run first;
+// the same schedules as the examples of Open/C05.lean. They must pass on the code as it is.
 func c05Corpus(strat string) []c05Case {
 	a := c05Write{ID: 1, Len: 7, Attrs: []string{"m0", "ctype"}}
 	b := c05Write{ID: 2, Len: 12, Attrs: []string{"m0", "ctype"}}
@@ -942,6 +944,12 @@ func c05Corpus(strat string) []c05Case {
 		{Strat: strat, Init: &bigA, Reqs: []c05Req{{Kind: "P", W: bigB}, {Kind: "G"}}, Sched: "1" + putAll + strings.Repeat("1", 12) + pad, Pair: "PUT,GET"},
 		// GET reads stat and attributes of A, the overwrite publishes B, GET opens B
 		{Strat: strat, Init: &a, Reqs: []c05Req{put, {Kind: "G"}}, Sched: strings.Repeat("1", 12) + putAll + "1" + pad, Pair: "PUT,GET"},
+		// the overwrite runs up to (old shape: and including) its unlink, GET / HEAD start, the overwrite goes on
+		{Strat: strat, Init: &a, Reqs: []c05Req{put, {Kind: "G"}}, Sched: strings.Repeat("0", 7) + "1" + pad, Pair: "PUT,GET"},
+		{Strat: strat, Init: &a, Reqs: []c05Req{put, {Kind: "H"}}, Sched: strings.Repeat("0", 7) + "1" + pad, Pair: "PUT,HEAD"},
+		// CopyObject publishes, a DELETE removes the key, CopyObject stats the destination
+		{Strat: strat, Init: &a, Reqs: []c05Req{{Kind: "C", W: b}, {Kind: "D"}}, Sched: strings.Repeat("0", 9) + "11" + strings.Repeat("0", 6) + "11", Pair: "COPY,DELETE"},
+		{Strat: strat, Init: &a, Reqs: []c05Req{{Kind: "C", W: b}, {Kind: "D"}}, Sched: strings.Repeat("0", 11) + "11" + strings.Repeat("0", 6) + "11", Pair: "COPY,DELETE"},
 	}
 }
 
@@ -966,12 +974,6 @@ func c05SameAnswers(model, impl []string) bool {
 	}
 	for i := range model {
 		if model[i] == impl[i] {
-			continue
-		}
-		if model[i] == "err" && impl[i] == "ok" {
-			// CopyObject's stat of the destination after its publication found nothing (a concurrent
-			// DELETE or the unlink window of an overwrite): the model, like the code as it is, fails
-			// the request; a gateway that tolerates it (proposed fix 3) answers 200 — the copy did happen
 			continue
 		}
 		if !c05LenMismatch(model[i]) {
